@@ -186,6 +186,14 @@ func c13Prepare(dir string, tier string) {
 	c12WriteOtherFormats(dir, 3000, 5)
 }
 
+// CPU values (and repetitions of the whole list) a workload is run with
+func c13Cpus(tier string) []int {
+	if tier == "thorough" {
+		return []int{2, 4, 8, 16, 3, 16, 8, 2, 16}
+	}
+	return []int{2, 8, 16}
+}
+
 // c13Child runs one workload in-process (this process is the race-detector build)
 func c13Child(name string, tier string) {
 	dir := os.Getenv("VERIF_C13_DIR")
@@ -200,10 +208,7 @@ func c13Child(name string, tier string) {
 		fmt.Fprintln(os.Stderr, "c13: unknown workload", name)
 		os.Exit(3)
 	}
-	cpus := []int{2, 4, 8, 16}
-	if tier != "thorough" {
-		cpus = []int{2, 8, 16}
-	}
+	cpus := c13Cpus(tier)
 	switch w.Special {
 	case "signal":
 		os.Args = []string{"csvq", "-r", dir, "-q", "-p", "4", "-o", filepath.Join(dir, "signal_out.txt"), w.Queries[0]}
@@ -464,7 +469,7 @@ func runC13(seed int64, tier string, out string) {
 	for i, r := range results {
 		wl := workloads[i]
 		nq += len(wl.Queries)
-		meta.Evaluations += len(wl.Queries)
+		meta.Evaluations += len(wl.Queries) * len(c13Cpus(tier))
 		meta.Distribution["workload:"+wl.Name+":race-reports"] = len(r.races)
 		meta.Distribution["workload:"+wl.Name+":seconds"] = int(durs[i].Seconds())
 		if !strings.Contains(r.stdout, "C13-CHILD-DONE") {
